@@ -4,6 +4,7 @@ import ScrapliProps.C01Platform
 import ScrapliProps.C01Driver
 import ScrapliProps.C01PlatformXR
 import ScrapliProps.C01PlatformEOS
+import ScrapliProps.C01PlatformNX
 /-
   C01 — a command's response is exactly what the device printed for that command.
   Property theorems only (helper lemmas and the definitions `Quiet`, `NoEarly`, `PromptOK`,
@@ -563,6 +564,22 @@ theorem eos_session_exact (cfg : Cfg) (out : Bytes → Bytes) {p t : Bytes} (hp 
       w'.writes = w.writes ++ (inputs.map (fun i => [i, cfg.ret])).flatten ∧
       (∀ x ∈ w'.avail, isHws x = true) ∧ w'.held = [] :=
   session_exact (eos_fits cfg out hp ht hS hstrict hret hwin) stripPrompt inputs hg w hw hheld
+
+/-- **and for the Cisco NX-OS class pattern** (optional `(maint-mode)` after the host, tcl alternatives, `\s?`):
+    every exec / privilege-exec / configuration prompt the pattern admits, in or out of maintenance mode
+    (`nxos_fits`), `nxosP` compared with CPython on every run -/
+theorem nxos_session_exact (cfg : Cfg) (out : Bytes → Bytes) {p t : Bytes} (hp : NxPrompt p) (ht : t = [] ∨ t = [32])
+    (hS : ∀ x, cfg.prompt.search x = (splitNL x).any nxosP)
+    (hstrict : cfg.rough = false) (hret : IsRet cfg.ret) (hwin : (p ++ t).length < cfg.depth)
+    (stripPrompt : Bool) (inputs : List Bytes)
+    (hg : ∀ i ∈ inputs, GoodCmd nxosP { out := out, prompt := p, trail := t } i)
+    (w : Wire) (hw : ∀ x ∈ w.avail, isHws x = true) (hheld : w.held = []) :
+    ∃ rs w', runCmds cfg (LineDev.onWrite { out := out, prompt := p, trail := t }) stripPrompt inputs (w, []) =
+        some (rs, (w', [])) ∧
+      rs.map (·.2) = inputs.map (expected cfg { out := out, prompt := p, trail := t } stripPrompt) ∧
+      w'.writes = w.writes ++ (inputs.map (fun i => [i, cfg.ret])).flatten ∧
+      (∀ x ∈ w'.avail, isHws x = true) ∧ w'.held = [] :=
+  session_exact (nxos_fits cfg out hp ht hS hstrict hret hwin) stripPrompt inputs hg w hw hheld
 
 /-- the defaults regenerated from the source lie inside the scope of the session theorems
     (return character `\n`, strict input matching, a positive search depth) -/
